@@ -1,4 +1,5 @@
 """C05 - guaranteed sends are eventually delivered, for every size, from both APIs."""
+import random
 import collections
 from checks.common import UdpCheck, gen_traffic, limits, ConnectionStatus, client_addr, FragExpiryProbe, QueueConservation
 
@@ -72,6 +73,14 @@ class C05(UdpCheck):
                                  "api": "send"})
                 plan.append(op)
             case["plan"] = plan
+        rng2 = random.Random("c05-extra|%s" % (rng.getstate()[1][:3],))       # (does not consume from the main stream)
+        if rng2.random() < 0.3:
+            # a transient failure of the client's sendto right when (or shortly after) a guaranteed message starts to
+            # travel: one datagram - maybe the first transmission of a fragment - never leaves; the message still arrives
+            cs = [op for op in case["plan"] if op["op"] == "send"]
+            for op in rng2.sample(cs, min(len(cs), rng2.choice([1, 2, 3]))):
+                case["plan"].append({"op": "csockerr", "c": op["c"], "t": round(op["t"] + rng2.choice([0.0, 0.0, 0.02, 0.05]), 4)})
+            case["cfg"]["client_sendto_errors"] = True
         if rng.random() < 0.2:
             case["plan"].append({"op": "hgreet", "t": 0.0, "len": rng.choice([5, 300, 2500]), "retry": -1, "cb": False,
                                  "api": rng.choice(["send", "send_guaranteed"]), "kind": 0})
